@@ -24,6 +24,30 @@ def run_selftest(args):
         if not cs.funcs:
             print('selftest: no contracts found')
             return 1
-        return 0
+        # every contract must fit the code it is written for (VC generation only, no solving)
+        from .vcgen import Unsupported, ContractError
+        from .spec import SpecError
+        bad = 0
+        for fn in sorted(cs.funcs):
+            if cs.funcs[fn].trusted:
+                continue
+            try:
+                vc = driver.gen(prog, cs, fn)
+                if not vc.obls:
+                    print('selftest: %s generated no obligations' % fn)
+                    bad += 1
+            except (Unsupported, ContractError, SpecError) as e:
+                print('selftest: contract of %s does not fit the code: %s' % (fn, e))
+                bad += 1
+        for ln in sorted(cs.lemmas):
+            if cs.lemmas[ln].axiom:
+                continue
+            try:
+                driver.gen_lemma(prog, cs, ln)
+            except (Unsupported, ContractError, SpecError) as e:
+                print('selftest: lemma %s: %s' % (ln, e))
+                bad += 1
+        print('selftest: %d contracts generate verification conditions, %d do not' % (len(cs.funcs), bad))
+        return 1 if bad else 0
     finally:
         wd.cleanup()
